@@ -24,7 +24,7 @@ THEOREMS = [("Arc.Fsm.PropsC22", "C22_restore_snapshot"),
 MODULES = ["Arc.Fsm.PropsC22"]
 EXTRA = ["theories/Fsm/Tie.vo", "theories/Fsm/PropsC22.vo"]
 TIE_NAME = lib_fsm.TIE_NAME["C22"]
-FAMILIES = ["file", "file", "token", "token", "rbac", "rbac", "mixed", "mixed", "node"]
+FAMILIES = ["file", "file", "token", "token", "rbac", "rbac_cascade", "rbac_cascade", "mixed", "mixed", "node"]
 
 
 def warm():
